@@ -24,7 +24,8 @@ REQUIRED_THEOREMS = [
     "Acn.C15.same_period_session_kept", "Acn.C15.stay_capped", "Acn.C15.requested_spec", "Acn.C15.requested_nonneg",
     "Acn.C15.free_capacity_covers_default", "Acn.C15.default_conversion_total", "Acn.C15.sample_spec",
     "Acn.C15.gen_fit_consts", "Acn.C15.init_le_capacity", "Acn.C15.fit_free_capacity", "Acn.C15.free_capacity_covers",
-    "Acn.C15.fit_exact", "Acn.C15.bisection_terminates", "Acn.C15.fit_F9_closed",
+    "Acn.C15.fit_exact", "Acn.C15.bisection_terminates", "Acn.C15.bisection_answer", "Acn.C15.fit_F9_closed",
+    "Acn.C15.trunc_eq_int_div", "Acn.C15.matrix_spec",
 ]
 BUDGET = {"quick": 1200, "thorough": 30000, "search": 12000}
 TRUSTED = [
@@ -283,8 +284,23 @@ def corpus():
     ]
 
 
+def _fit_grid():
+    """exhaustive small-scope grid for the capacity fit (thorough tier): every combination of stay, voltage,
+    period and fraction of the linearly deliverable energy, from 0.1 % up to 100 %"""
+    out = []
+    for T in (1, 2, 3, 6, 12, 24, 64, 100, 288):
+        for V in (120, 208, 240):
+            for P in (1, 5, 15):
+                lin = _maxp_fit(V) * T * (P / 60)
+                for fr in (1e-3, 0.01, 0.05, 0.1, 0.2, 0.3, 0.45, 0.5, 0.6, 0.8, 0.999, 1.0):
+                    out.append({"k": "fit", "E": float(lin * fr), "T": T, "V": V, "P": P})
+    return out
+
+
 def generate(rng, n, tier):
     out = []
+    if tier == "thorough":
+        out.extend(_fit_grid())
     for i in range(n):
         r = i % 20
         if r < 9:
